@@ -86,6 +86,11 @@ pub enum Signal {
     /// sample and every product with a filter coefficient is a subnormal f64, so a floating-point
     /// mode that flushes subnormals (left behind on the thread by someone else) shows
     NoiseSubnormalCh(usize),
+    /// spectrally trivial signals, a different one per channel (pattern (ch + offset) mod 4): a
+    /// click every `period` frames (flat spectrum), 0.75, 0, 0.75, 0 ... (DC + Nyquist), a constant,
+    /// alternating signs (Nyquist only). Transforms and scratch buffers of one channel look like
+    /// the data of another here; anything shared between channels that is keyed on values shows.
+    Trivial(usize, usize),
 }
 
 pub fn splitmix(mut x: u64) -> u64 {
@@ -108,6 +113,30 @@ impl Signal {
             Signal::NoiseCh(off) => Signal::Noise.at(ch + off, n),
             Signal::NoiseQuiet => Signal::Noise.at(ch, n) * (2.0f64).powi(-26),
             Signal::NoiseSubnormalCh(off) => Signal::Noise.at(ch + off, n) * (2.0f64).powi(-1040),
+            Signal::Trivial(off, period) => match (ch + off) % 4 {
+                0 => {
+                    if n % (*period).max(1) == 0 {
+                        0.75
+                    } else {
+                        0.0
+                    }
+                }
+                1 => {
+                    if n % 2 == 0 {
+                        0.75
+                    } else {
+                        0.0
+                    }
+                }
+                2 => 0.75,
+                _ => {
+                    if n % 2 == 0 {
+                        0.75
+                    } else {
+                        -0.75
+                    }
+                }
+            },
             Signal::NoisePoisonLast(last) => {
                 if ch == *last && n % 7 == 3 {
                     f64::NAN
@@ -606,6 +635,14 @@ impl<T: Flt> Runner<T> {
                     Bad::InShort(c, how) => {
                         let k = short(before.in_next, how);
                         tmp_in[c as usize].truncate(k);
+                    }
+                    Bad::InShortBoth => {
+                        tmp_in[0].truncate(short(before.in_next, 1));
+                        tmp_in[nch - 1].truncate(short(before.in_next, if nch >= 2 { 2 } else { 1 }));
+                    }
+                    Bad::OutShortBoth => {
+                        tmp_out[0].truncate(short(before.out_next, 1));
+                        tmp_out[nch - 1].truncate(short(before.out_next, if nch >= 2 { 2 } else { 1 }));
                     }
                     Bad::OutShort(c, how) => {
                         // the requirement on the output length is the advertised next output size
